@@ -134,14 +134,16 @@ fn on_helper<T: Send + 'static>(native: bool, watchdog: Duration, f: impl FnOnce
     let done = Arc::new(AtomicBool::new(false));
     let d2 = Arc::clone(&done);
     let main = thread::current();
-    let h = thread::Builder::new().name("vh-z".into()).spawn(move || {
+    let slot: Arc<Mutex<Option<std::thread::Result<T>>>> = Arc::new(Mutex::new(None));
+    let s2 = Arc::clone(&slot);
+    spawn_task("vh-z".into(), Box::new(move || {
         let r = catch_unwind(AssertUnwindSafe(f));
+        *s2.lock().unwrap() = Some(r);
         d2.store(true, Ordering::SeqCst);
         main.unpark();
-        r
-    }).expect("spawn helper");
+    }));
     match wait_until(native, watchdog, || done.load(Ordering::SeqCst)) {
-        Wait::Done => match h.join() { Ok(Ok(v)) => Ok(v), _ => Err(Wait::TimedOut) },
+        Wait::Done => match slot.lock().unwrap().take() { Some(Ok(v)) => Ok(v), _ => Err(Wait::TimedOut) },
         other => Err(other),
     }
 }
@@ -252,33 +254,32 @@ pub fn run_program(prog: Program, opts: &Opts, plan: noise::Plan) -> RunResult {
     noise::set_plan(plan, ctx.prog.run_seed);
     let nthreads = ctx.prog.threads.len();
     let barrier = Arc::new(Barrier::new(nthreads + helper_threads(&ctx)));
-    let mut joins = vec![];
     let mut started = nthreads + helper_threads(&ctx);
     for t in 0..nthreads {
         let m = mortal_clones[t].take();
-        joins.push(spawn_caller(&ctx, t, ctx.prog.threads[t].clone(), m, Some(Arc::clone(&barrier))));
+        spawn_caller(&ctx, t, ctx.prog.threads[t].clone(), m, Some(Arc::clone(&barrier)));
     }
     {
         let c = Arc::clone(&ctx); let b = Arc::clone(&barrier);
-        joins.push(thread::Builder::new().name("vh-f".into()).spawn(move || {
+        spawn_task("vh-f".into(), Box::new(move || {
             let _ = c.firer.set(thread::current());
             b.wait();
             let r = catch_unwind(AssertUnwindSafe(|| run_firer(&c, false)));
             if let Err(e) = r { thread_panicked(&c, "vh-f", e); }
             c.threads_done.fetch_add(1, Ordering::SeqCst);
             c.main.unpark();
-        }).expect("spawn"));
+        }));
     }
     if !ctx.prog.pusher.is_empty() {
         let c = Arc::clone(&ctx); let b = Arc::clone(&barrier);
-        joins.push(thread::Builder::new().name("vh-p".into()).spawn(move || {
+        spawn_task("vh-p".into(), Box::new(move || {
             let _ = c.pusher.set(thread::current());
             b.wait();
             let r = catch_unwind(AssertUnwindSafe(|| run_firer(&c, true)));
             if let Err(e) = r { thread_panicked(&c, "vh-p", e); }
             c.threads_done.fetch_add(1, Ordering::SeqCst);
             c.main.unpark();
-        }).expect("spawn"));
+        }));
     }
 
     // 4. wait for completion; with holds (C10) first for everything that does not depend on a hold
@@ -366,7 +367,7 @@ pub fn run_program(prog: Program, opts: &Opts, plan: noise::Plan) -> RunResult {
         }
         for (t, acts) in ph.threads.iter().enumerate() {
             started += 1;
-            joins.push(spawn_caller(&ctx, 10 + t, acts.clone(), None, None));
+            spawn_caller(&ctx, 10 + t, acts.clone(), None, None);
         }
         if !ph.occupy.is_empty() {
             let w = wait_until(native, watchdog, || ph.occupy.iter().all(|h| ctx.holds[*h].inside.load(Ordering::SeqCst) >= 1));
@@ -550,7 +551,7 @@ pub fn run_program(prog: Program, opts: &Opts, plan: noise::Plan) -> RunResult {
         }
     }
 
-    if outcome == Outcome::Completed { for j in joins { let _ = j.join(); } } else {
+    if outcome != Outcome::Completed {
         // threads are blocked inside the crate: dropping the last owners here would block the monitor as well
         std::mem::forget(objects);
     }
@@ -558,16 +559,39 @@ pub fn run_program(prog: Program, opts: &Opts, plan: noise::Plan) -> RunResult {
     RunResult { outcome, violations, ctx, diag, stats, plan }
 }
 
-fn spawn_caller(ctx: &Arc<RunCtx>, t: usize, acts: Vec<TAct>, mortal: Option<Arc<Obj>>, barrier: Option<Arc<Barrier>>) -> thread::JoinHandle<()> {
+type Task = Box<dyn FnOnce() + Send>;
+struct Worker { tx: std::sync::mpsc::Sender<Task>, handle: thread::JoinHandle<()> }
+static WORKERS: Mutex<Vec<(String, Worker)>> = Mutex::new(Vec::new());
+
+/// Runs `f` on the long-lived harness thread of that name (created on first use). Thread creation is slow in this
+/// environment, and an idle worker sleeps in an untimed futex wait, which is what the quiescence oracle expects.
+fn spawn_task(name: String, f: Task) {
+    let mut w = WORKERS.lock().unwrap();
+    if !w.iter().any(|(n, _)| *n == name) {
+        let (tx, rx) = std::sync::mpsc::channel::<Task>();
+        let handle = thread::Builder::new().name(name.clone()).spawn(move || { while let Ok(job) = rx.recv() { job(); } }).expect("spawn");
+        w.push((name.clone(), Worker { tx, handle }));
+    }
+    let worker = &w.iter().find(|(n, _)| *n == name).unwrap().1;
+    worker.tx.send(f).expect("worker alive");
+}
+
+/// Ends all worker threads (needed before leaving main under Miri)
+pub fn shutdown_workers() {
+    let workers: Vec<(String, Worker)> = std::mem::take(&mut *WORKERS.lock().unwrap());
+    for (_, w) in workers { std::mem::drop(w.tx); let _ = w.handle.join(); }
+}
+
+fn spawn_caller(ctx: &Arc<RunCtx>, t: usize, acts: Vec<TAct>, mortal: Option<Arc<Obj>>, barrier: Option<Arc<Barrier>>) {
     let c = Arc::clone(ctx);
-    thread::Builder::new().name(format!("vh-c{}", t)).spawn(move || {
+    spawn_task(format!("vh-c{}", t), Box::new(move || {
         if let Some(b) = barrier { b.wait(); }
         let r = catch_unwind(AssertUnwindSafe(|| run_thread(&c, acts, mortal)));
         if let Err(e) = r { thread_panicked(&c, &format!("vh-c{}", t), e); }
         if t < 10 { c.done_mask.fetch_or(1 << t, Ordering::SeqCst); }
         c.threads_done.fetch_add(1, Ordering::SeqCst);
         c.main.unpark();
-    }).expect("spawn")
+    }));
 }
 
 fn thread_panicked(_ctx: &RunCtx, _name: &str, _e: Box<dyn std::any::Any + Send>) {
